@@ -63,6 +63,22 @@ class VLoop(asyncio.SelectorEventLoop):
             raise box['e']
         return box.get('r')
 
+    def run_until(self, t, on_step=None):
+        """advance virtual time to t, firing every timer at its own instant"""
+        self.settle()
+        while True:
+            nt = self.next_timer()
+            if nt is None or nt > t:
+                break
+            if nt > self._vt:
+                self._vt = nt
+            self.settle()
+            if on_step is not None:
+                on_step()
+        if t > self._vt:
+            self._vt = t
+        self.settle()
+
     def next_timer(self):
         live = [h._when for h in self._scheduled if not h._cancelled]
         return min(live) if live else None
